@@ -24,5 +24,16 @@ Theorem C05_agree :
                session_keys r' = last_keys E D cfg apps st evs (session_keys r).
 Proof. exact stored_session_is_last_accept. Qed.
 
+From Lospan Require Import Model.Steps Proof.SchedProof.
+(* Concurrent clause: two handlers working on copies of one join-request (received through any gateways,
+   drawing any application nonces), interleaved operation by operation in EVERY order, with the nonce check on:
+   at most one join-accept leaves (the loser's insert of the nonce fails on the primary key and it stops). *)
+Theorem C05_concurrent_copies_one_accept :
+  forall (E D : list N -> list N -> list N) apps cfg f, cfg_disable_nonce_check cfg = false ->
+  forall sched fuel st rx1 an1 na1 rx2 an2 na2,
+    (length (downs (snd (interleave apps sched fuel st (join_prog E D cfg f rx1 an1 na1) (join_prog E D cfg f rx2 an2 na2) []))) <= 1)%nat.
+Proof. exact concurrent_join_copies_answered_at_most_once. Qed.
+
 Print Assumptions C05_once.
 Print Assumptions C05_agree.
+Print Assumptions C05_concurrent_copies_one_accept.
